@@ -420,6 +420,8 @@ void mthreadCase(const vh::Args& a, vh::Out& out, vh::Progress& prog, uint64_t i
          bool afterJoin;
          {
             ManagedThread mt(blockingFunc, &sh);
+            // queries before the function is known to run: either answer is right, they must not influence later answers
+            for (unsigned k = 0, ke = (unsigned)r.below(3); k < ke; ++k) { if (mt.isActive()) out.stat("mthread_unjudged_samples_active"); else out.stat("mthread_unjudged_early_samples_inactive"); }
             waitFlag(sh.started);              // from here on the function is known to run
             for (unsigned k = 0; k < K; ++k)
             {
